@@ -58,6 +58,7 @@ fn same<T: PartialEq>(a: &Outcome<T>, b: &Outcome<T>) -> bool {
 fn run_case(seed: u64, idx: u64, _tier: Tier, out: &mut CaseOut) {
     let mut rng = Rng::for_case(seed, "C10", idx);
     let mut p = Profile::full();
+    p.lead_br = true;
     p.id_permille = 80;
     p.a_name = true;
     let doc = gen_doc(&mut rng, &p);
